@@ -604,6 +604,9 @@ func (w *world) run() {
 			}
 			var sig crypto.Signature
 			if !w.guard("BLSReconstructThresholdSignature(degenerate)", func() { sig, err = crypto.BLSReconstructThresholdSignature(w.n, w.t, sh, who) }) {
+				if err == nil && undecodable[kind] {
+					w.viol("C06", "stateless", "stateless.malformed-share-accepted", "t+1 shares of kind %s (not encodings of points of E1) but the stateless reconstruction returned a signature and a nil error", kind)
+				}
 				if err == nil && hex.EncodeToString(sig) != w.env.GroupSig {
 					hasher := crypto.NewExpandMsgXOFKMAC128(w.tag)
 					if ok, _ := w.gpk.Verify(sig, w.msgB, hasher); ok {
@@ -620,6 +623,10 @@ func (w *world) run() {
 		w.allSubsets()
 	}
 }
+
+// undecodable lists the bad-share kinds that are not encodings of any point of E1.
+var undecodable = map[string]bool{"offcurve": true, "xlarge": true, "badheader": true, "len0": true, "len47": true, "len49": true,
+	"len96": true, "pair47_49": true, "pair0_96": true}
 
 func sumMap(m map[string]int) int {
 	s := 0
@@ -780,7 +787,15 @@ func (w *world) stateless(col *collector) {
 		w.out.Probes["stateless_reconstruction_succeeded"]++
 		return
 	}
-	// an invalid share among the first t+1: error or an invalid signature (documented); never a second valid one
+	// an invalid share among the first t+1: error or an invalid signature (documented); never a second valid one.
+	// A share that does not even serialize to a curve point (wrong length, bad header, x >= p, off-curve)
+	// must give the documented error, not a signature.
+	for i := 0; i <= w.t; i++ {
+		if undecodable[w.pool[col.list[i]].Kind] && got == "" {
+			w.viol("C06", "stateless", "stateless.malformed-share-accepted", "share #%d of the list is of kind %s (does not serialize to a point of E1) but the stateless reconstruction returned a signature and a nil error", i, w.pool[col.list[i]].Kind)
+			return
+		}
+	}
 	if got == "" {
 		hasher := crypto.NewExpandMsgXOFKMAC128(w.tag)
 		// the result may even be valid (shares invalid for their signers can interpolate to the
